@@ -6,5 +6,7 @@ CONSTANTS
  OffResetsPause = TRUE
  CountEntries = TRUE
  MaxRemovals = 1
+ Paths = {"A"}
+ RejectedSetsBase = FALSE
 INVARIANTS C06_newdir
 CHECK_DEADLOCK FALSE
